@@ -666,6 +666,13 @@ def wrappers(index, rep, rule) -> None:
               f"visibility_function_registry['{name}'], rng=rng)"
         if len(rets) == 1 and rets[0].value is not None:
             r = w.expand(rets[0].value)
+            if not (isinstance(r, ast.Call) and src(r.func) == 'from_visibility'):
+                # a shared one-expression helper (`_from_registered_visibility(name, ..)`) is
+                # read through, with this wrapper's arguments in place of its parameters
+                from ..inline import inline_pure_exprs
+                from ..pinned_names import FUNCTIONS, METHODS
+                r = inline_pure_exprs(index, f.module, f.cls, r,
+                                      keep=tuple(FUNCTIONS | METHODS))
             if isinstance(r, ast.Call) and src(r.func) == 'from_visibility':
                 kw = {k.arg: src(k.value) for k in r.keywords}
                 pos = [src(a) for a in r.args]
